@@ -289,6 +289,11 @@ type behaviour struct {
 	Steps []map[string]interface{}
 }
 
+func pairIsBase(pair interface{}) bool {
+	pm, ok := pair.(map[string]interface{})
+	return ok && pm["key"] != "" && pm["role"] == "base"
+}
+
 // validateTraces shards the trace by behaviours, runs Trace.tla on every shard in parallel and
 // collects the per-line judgements.
 func validateTraces(w string, tracePath string, shards int) (recs []map[string]interface{}, accepted bool, lines int, err error) {
@@ -309,10 +314,11 @@ func validateTraces(w string, tracePath string, shards int) (recs []map[string]i
 			var m struct {
 				Meta struct {
 					Shape string `json:"shape"`
+					Cut   bool   `json:"cut"`
 				} `json:"meta"`
 			}
 			json.Unmarshal([]byte(l), &m)
-			if m.Meta.Shape != lastShape || len(starts) == 0 {
+			if m.Meta.Shape != lastShape || len(starts) == 0 || m.Meta.Cut {
 				starts = append(starts, i)
 				lastShape = m.Meta.Shape
 			}
@@ -434,6 +440,16 @@ func runSessionFamily(env *pipeline.Env, fam SessFamily, tier string, seed int64
 		rep0Random = len(shapes) * n
 	}
 	used := map[string]bool{}
+	// groups without group-level checks keep only the pair memory (one base at a time): their trace may be cut
+	// in front of every base behaviour and validated in parallel
+	groupChecks := map[string]bool{}
+	for _, s := range shapeByID {
+		var gc []interface{}
+		json.Unmarshal(s.GChecks, &gc)
+		if len(gc) > 0 {
+			groupChecks[s.Group] = true
+		}
+	}
 	var behs []behaviour
 	for i, v := range vecs {
 		for _, mv := range v.ModelViol {
@@ -467,7 +483,8 @@ func runSessionFamily(env *pipeline.Env, fam SessFamily, tier string, seed int64
 		}
 		b := behaviour{ID: id, Key: s.runKey() + "/" + s.Root, Shape: v.Shape,
 			Meta: map[string]interface{}{"d": d, "cfg": c, "root": s.Root, "eval": fam.Eval, "shape": unit, "shapeid": v.Shape,
-				"run": s.runKey(), "group": s.Group, "role": s.Role, "gchecks": gchecks, "pair": pair}}
+				"run": s.runKey(), "group": s.Group, "role": s.Role, "gchecks": gchecks, "pair": pair,
+				"cut": s.Group != "" && !groupChecks[s.Group] && pairIsBase(pair)}}
 		for _, st := range v.Steps {
 			b.Steps = append(b.Steps, driverStep(st))
 		}
